@@ -106,8 +106,10 @@ class MappingPulseTemplate(PulseTemplate, ParameterConstrainer):
             raise ValueError('Cannot map multiple channels to the same target(s) %r' % overlapping_targets,
                              channel_mapping)
 
-        if isinstance(template, MappingPulseTemplate) and template.identifier is None:
-            # avoid nested mappings
+        if (isinstance(template, MappingPulseTemplate) and template.identifier is None
+                and not template.parameter_constraints):
+            # avoid nested mappings (an inner mapping that carries parameter constraints is kept: merging would
+            # drop them)
             parameter_mapping = {p: Expression(expr.evaluate_symbolic(parameter_mapping))
                                  for p, expr in template.parameter_mapping.items()}
             measurement_mapping = {k: measurement_mapping[v]
